@@ -484,7 +484,17 @@ func (m *Mon) stepC05(sc *StepCtx, si stepInfo) {
 			known, rightful, why = ok, ok && hexs(r.Provider) == signer, "request's provider"
 		case *types.MsgBindService:
 			o, owned := pre.ProvOwner[hexs(mm.Provider)]
-			rightful = (!owned || o == signer) && !(w.hasModSvc && mm.ServiceName == modSvcName)
+			if !owned {
+				// a provider is also spoken for by the owner of any binding that names it
+				for _, b := range pre.Bindings {
+					if bytes.Equal(b.Provider, mm.Provider) {
+						o, owned = hexs(b.Owner), true
+						break
+					}
+				}
+			}
+			// the service name is reserved by the module double for the life of the keeper
+			rightful = (!owned || o == signer) && mm.ServiceName != modSvcName
 			why = "provider unowned or own, service not module-reserved"
 		}
 		sit := fmt.Sprintf("%s/known%v/rightful%v/%s", sc.Step.MsgType, known, rightful, okStr(sc.Res))
@@ -607,6 +617,42 @@ func (m *Mon) stepC06C07(sc *StepCtx, si stepInfo) {
 			}
 		}
 	}
+	// C07: requests made in super mode cost the consumer nothing
+	superOnly := map[string]bool{}
+	charged := map[string]bool{}
+	for _, ids := range newReqs {
+		for _, id := range ids {
+			r := post.Requests[id]
+			rc, ok := pre.Contexts[hexs(r.RequestContextId)]
+			if !ok {
+				rc = post.Contexts[hexs(r.RequestContextId)]
+			}
+			c := hexs(rc.Consumer)
+			if rc.SuperMode {
+				if !charged[c] {
+					superOnly[c] = true
+				}
+			} else {
+				charged[c] = true
+				delete(superOnly, c)
+			}
+		}
+	}
+	for c := range superOnly {
+		want := new(big.Int)
+		if sc.IsBlock() {
+			if v := sc.block().Refunds[c]; v != nil {
+				want = v
+			}
+		}
+		if _, tracked := post.Bal[c]; tracked {
+			m.hit("C07", "super-mode-costs-nothing", cls)
+			if d := delta(pre, post, c); !eqInt(d, want) {
+				m.fail(sc, "C07", "super-mode-costs-nothing", cls, "consumer %.8s only got super-mode requests in %s but its balance moved by %s (expected %s)", c, sc.Step.Desc, d, want)
+			}
+		}
+	}
+
 	// C07: volume records
 	for k, v := range post.Volumes {
 		if pv := pre.Volumes[k]; pv != v {
@@ -726,6 +772,7 @@ func (m *Mon) stepC06C07(sc *StepCtx, si stepInfo) {
 			} else if _, tracked := post.Bal[c]; tracked {
 				if cost.Cmp(bi(post.Bal[c])) <= 0 {
 					m.fail(sc, "C06", "paused-only-for-funds", "could-pay", "context %.16s paused for funds at block %d: batch costs %s, consumer still holds %s", id, be.H, cost, post.Bal[c])
+					m.fail(sc, "C09", "transition", "running->paused-without-cause", "context %.16s paused by end-of-block %d although its consumer can pay the batch (%s of %s)", id, be.H, cost, post.Bal[c])
 				}
 			}
 		}
@@ -749,6 +796,7 @@ func (m *Mon) stepC06C07(sc *StepCtx, si stepInfo) {
 				m.hit("C06", "funds-decision", fmt.Sprintf("margin%d", clampI(new(big.Int).Sub(avail, cost).Int64(), -2, 2)))
 				if canPay && pausedNow {
 					m.fail(sc, "C06", "funds-decision", "paused-though-funded", "context %.16s paused although the consumer holds %s and the batch costs %s", id, avail, cost)
+					m.fail(sc, "C09", "transition", "running->paused-without-cause", "context %.16s paused by end-of-block %d although its consumer holds %s and the batch costs %s", id, be.H, avail, cost)
 				}
 				if !canPay && advanced && len(issued) > 0 {
 					m.fail(sc, "C06", "funds-decision", "issued-though-unfunded", "context %.16s issued a batch costing %s although the consumer holds only %s", id, cost, avail)
@@ -830,6 +878,7 @@ func (m *Mon) stepC08(sc *StepCtx, si stepInfo) {
 		if sc.Res.Panic == "" {
 			if want && !sc.Res.OK {
 				m.fail(sc, "C08", "admission", "rejected-valid", "response by the designated provider to a pending request (expiry %d, now %d) was rejected: %s", r.ExpirationHeight, pre.Height, sc.Res.Err)
+				m.fail(sc, "C02", "R2-good-response", "refused", "the designated provider answered a pending request in time (expiry %d, now %d) but the response was refused (%s): the fee cannot reach its earnings", r.ExpirationHeight, pre.Height, sc.Res.Err)
 			}
 			if !want && sc.Res.OK {
 				m.fail(sc, "C08", "admission", fmt.Sprintf("accepted-known%v-pending%v-right%v", known, pending, right), "response accepted although request known=%v pending=%v provider-matches=%v", known, pending, right)
@@ -838,9 +887,22 @@ func (m *Mon) stepC08(sc *StepCtx, si stepInfo) {
 	}
 	if sc.IsBlock() {
 		m.eval("C08")
+		stillPending := map[string]bool{}
 		for id := range post.ActiveID {
-			if r, ok := post.Requests[id]; ok && r.ExpirationHeight <= pre.Height {
-				m.fail(sc, "C08", "not-pending-after-expiry-block", "", "request %.24s.. with expiry %d still pending after block %d ended", id, r.ExpirationHeight, pre.Height)
+			stillPending[id] = true
+		}
+		for id := range post.ActiveBind {
+			stillPending[id] = true // the provider-side listing counts as pending too
+		}
+		for id := range stillPending {
+			exp, known := int64(0), false
+			if r, ok := post.Requests[id]; ok {
+				exp, known = r.ExpirationHeight, true
+			} else if le := m.reqs[id]; le != nil {
+				exp, known = le.ExpH, true // the record may be gone while a marker survives
+			}
+			if known && exp <= pre.Height {
+				m.fail(sc, "C08", "not-pending-after-expiry-block", "", "request %.24s.. with expiry %d still pending after block %d ended", id, exp, pre.Height)
 			}
 		}
 		// expiry height fixed at issue = issue height + timeout in force
@@ -971,7 +1033,7 @@ func (m *Mon) stepC09(sc *StepCtx, si stepInfo) {
 			if a.State != types.RUNNING {
 				m.fail(sc, "C09", "batches-only-while-running", "pre-"+a.State.String(), "context %.16s in state %s got batch %d", id, a.State, b.BatchCounter)
 			}
-			if b.State != types.RUNNING {
+			if b.State != types.RUNNING && !cbKilled[id] { // (a module may kill it later in the same end-of-block)
 				m.fail(sc, "C09", "batches-only-while-running", "post-"+b.State.String(), "context %.16s got batch %d in the step that left it %s", id, b.BatchCounter, b.State)
 			}
 		}
@@ -1059,6 +1121,9 @@ func (m *Mon) stepC12(sc *StepCtx, si stepInfo) {
 	cls := stepClass(sc)
 	seenResp := map[string]int{}
 	for _, cb := range sc.Res.Callbacks {
+		if cb.Kind == "react" {
+			continue // not a callback: an operation the module double performed from inside one
+		}
 		t := m.ctxs[cb.CtxID]
 		if t == nil || t.Module != verifModule {
 			m.fail(sc, "C12", "callback-only-for-module-contexts", cb.Kind, "%s callback for context %.16s which is not owned by the module", cb.Kind, cb.CtxID)
@@ -1197,6 +1262,16 @@ func (m *Mon) stepC13(sc *StepCtx, si stepInfo) {
 			} else {
 				m.hit("C13", "E4-withdraw-address", "")
 			}
+		}
+	}
+	if mm, ok := sc.Msg.(*types.MsgSetWithdrawAddress); ok && sc.Res.OK {
+		eff := hexs(mm.Owner)
+		if a, ok := post.Withdraw[eff]; ok {
+			eff = a
+		}
+		m.hit("C13", "E4-set-takes-effect", fmt.Sprintf("back-to-owner%v/len%d", bytes.Equal(mm.Owner, mm.WithdrawAddress), minInt(len(mm.WithdrawAddress), 21)))
+		if eff != hexs(mm.WithdrawAddress) {
+			m.fail(sc, "C13", "E4-withdraw-address", "set-ignored", "owner %.8s set its withdrawal address to %x but payouts still go to %.16s", hexs(mm.Owner), []byte(mm.WithdrawAddress), eff)
 		}
 	}
 	for o := range pre.Withdraw {
